@@ -436,6 +436,7 @@ func c07Race(mode string) core.Outcome {
 		}
 		o.Violation = "data race reported by the free-running -race monitor: first sysl frame " + frame + "\n" + s[:min(len(s), 3000)]
 		o.Sig = "race|" + frame
+		o.Witnessed = true
 		return o
 	}
 	if err != nil {
